@@ -191,12 +191,48 @@ theorem stream_offset_witness :
     (uploadStream idCrypto ⟨[1, 2], 1⟩ 1 4).declaredDigest ≠ idCrypto.sha (uploadStream idCrypto ⟨[1, 2], 1⟩ 1 4).body := by
   decide
 
+/-- retried streamed uploads: `_put_object_stream` is re-run by `backoff` after a failed attempt — after an error status AND after
+a transport-level failure (connection reset, read / write error, timeout) that struck when the transport had pulled any number
+of body parts from the stream.  Because the code rewinds the stream after EVERY class of failure (`putRewinds`, generated from
+the `try` statement; the proof stops compiling when a class is no longer covered), every attempt — the first, each retry, the
+one that is answered — offers the whole content as its body, declares the hash of exactly that body and (when the caller's
+`length` is right) its length; what the service received of a broken attempt is a prefix of it. -/
+theorem retried_stream_payload_matches (c : Crypto) (data : Bytes) (length chunk : Nat) (hc : 0 < chunk) (faults : List Fault) :
+    ∀ a ∈ uploadStreamRetried c ⟨data, 0⟩ length chunk faults,
+      a.put.body = data ∧ a.put.declaredDigest = c.sha a.put.body ∧
+      (length = data.length → a.put.declaredLength = a.put.body.length) ∧ a.sent <+: data := by
+  intro a ha
+  have hrew : ∀ k, putRewinds k = true := by intro k; cases k <;> rfl
+  have hto : Gen.s3PutRewindTo = 0 := rfl
+  have hs : Gen.s3StreamRewindTo = some 0 := rfl
+  unfold uploadStreamRetried uploadStreamRetriedWith streamDigest at ha
+  rw [hto] at ha
+  simp only [hs] at ha
+  obtain ⟨hput, hsent⟩ := attemptsWith_rewinding putRewinds hrew _ data length chunk hc faults ⟨data, 0⟩ rfl rfl a ha
+  rw [hput]
+  exact ⟨rfl, by simp, fun h => h, hsent⟩
+
+/-- the number of requests of a retried upload: one per failed attempt, and the one that is answered -/
+theorem retried_stream_attempt_count (c : Crypto) (s : Stream) (length chunk : Nat) (faults : List Fault) :
+    (uploadStreamRetried c s length chunk faults).length = faults.length + 1 := by
+  simp [uploadStreamRetried, uploadStreamRetriedWith, attemptsWith_length]
+
+/-- why every class must be covered — a policy that rewinds after an error status only: the connection breaks when two of the
+three parts were pulled, the retry declares the hash and length of `[1, 2, 3]` and sends `[3]` -/
+theorem retry_without_rewind_witness :
+    let as := uploadStreamRetriedWith (fun k => k == .status) 0 idCrypto ⟨[1, 2, 3], 0⟩ 3 1 [⟨.transport, 2⟩]
+    as.map (fun a => (a.put.declaredDigest, a.put.declaredLength, a.put.body)) = [([1, 2, 3], 3, [1, 2, 3]), ([1, 2, 3], 3, [3])] := by
+  decide
+
 /-! ## non-vacuity -/
 example : WellFormed (demo [47, 98, 47, 120] [104] [104, 116, 116, 112] (listQuery (some [116]) [112])) ∧
     NoKnownDefect (demo [47, 98, 47, 120] [104] [104, 116, 116, 112] (listQuery (some [116]) [112])) :=
   ⟨⟨by decide, by decide, list_query_keys_ok (some [116]) [112]⟩, by decide, fun p hp => Or.inr (by
     have : p ∈ listQuery (some [116]) [112] := hp
     revert p; decide), by decide⟩
+
+example : (uploadStreamRetried idCrypto ⟨[1, 2, 3], 0⟩ 3 1 [⟨.transport, 2⟩, ⟨.status, 9⟩]).map (fun a => (a.put.body, a.sent)) =
+    [([1, 2, 3], [1, 2]), ([1, 2, 3], [1, 2, 3]), ([1, 2, 3], [1, 2, 3])] := by decide
 
 example : clientPath [0x61, 0x20, 0xC3, 0xBC, 0x2F, 0x7E] = [0x61, 0x25, 0x32, 0x30, 0x25, 0x43, 0x33, 0x25, 0x42, 0x43, 0x2F, 0x7E] := by decide
 
